@@ -213,15 +213,29 @@ def maxByKeyLast : List (Nat × Nat) → Option (Nat × Nat)
   let mMax := F.toU32 (computeUpperM (R := R) n)
   (List.range (mMax - 3)).map (· + 3)
 
+/-- evaluation of the key closure of `max_by_key` over the candidates, in order (a panic of the
+    closure propagates) -/
+def keyAll (f : Nat → Res Nat) : List Nat → Res (List (Nat × Nat))
+  | [] => .ok []
+  | m :: ms =>
+    match f m with
+    | .panic s => .panic s
+    | .ok k =>
+      match keyAll f ms with
+      | .panic s => .panic s
+      | .ok rest => .ok ((m, k) :: rest)
+
 /-- `get_proven_security` -/
-@[specialize] def proven (o : Options) (baseFieldBits traceLen cr : Nat) : Res Nat := do
-  let keyed ← (mRange (R := R) traceLen).mapM
-    (fun m => do let k ← provenForM (R := R) o baseFieldBits traceLen m; pure (m, k))
-  match maxByKeyLast keyed with
-  | none => .panic "m range empty (expect)"
-  | some (mOpt, _) =>
-    let v ← provenForM (R := R) o baseFieldBits traceLen mOpt
-    pure (min v cr % U32)
+@[specialize] def proven (o : Options) (baseFieldBits traceLen cr : Nat) : Res Nat :=
+  match keyAll (fun m => provenForM (R := R) o baseFieldBits traceLen m) (mRange (R := R) traceLen) with
+  | .panic s => .panic s
+  | .ok keyed =>
+    match maxByKeyLast keyed with
+    | none => .panic "m range empty (expect)"
+    | some (mOpt, _) =>
+      match provenForM (R := R) o baseFieldBits traceLen mOpt with
+      | .panic s => .panic s
+      | .ok v => .ok (min v cr % U32)
 
 end generic
 
